@@ -368,13 +368,21 @@ def rxvtCtrlArrows (ti : Terminfo) : Bool := bytesEq ti.keys.keyCtrlUp [27, 91, 
 
 /-- wherever tcell enables focus reporting, no function key shadows `ESC [ I` / `ESC [ O` (holds since /repo 7758baa
 "rxvt Ctrl-arrow keys are ESC O a..d"; before that commit the rxvt entries carried `ESC [ O a…d`, see
-`rxvt_focus_out_shadowed`, and only `db_focus_clear_partial` held) -/
+`rxvt_focus_out_shadowed`, and only the statement with those entries excepted held) -/
 theorem db_focus_clear : Gen.dbTables.all (fun p => !focusEnabled p.1 || focusClear (toTable p.2)) = true := by
   decide +kernel
 
-/-- the same with the rxvt Ctrl-arrow entries excepted (`_partial`: true also on trees older than 7758baa) -/
-theorem db_focus_clear_partial :
+/-- what held before 7758baa (the rxvt Ctrl-arrow entries excepted) is now a corollary of `db_focus_clear`; kept under a
+non-`_partial` name only to document the extent of the former exception -/
+theorem db_focus_clear_rxvt_excepted :
     Gen.dbTables.all (fun p => !focusEnabled p.1 || focusClear (toTable p.2) || rxvtCtrlArrows p.1) = true := by
+  apply List.all_eq_true.mpr
+  intro p hp
+  have := List.all_eq_true.mp db_focus_clear p hp
+  rw [this]; rfl
+
+/-- no entry of the current database carries the clashing strings, and focus reporting is enabled somewhere (non-vacuity) -/
+example : Gen.dbTables.all (fun p => !rxvtCtrlArrows p.1) = true ∧ (Gen.dbTables.filter (fun p => focusEnabled p.1)).length ≥ 10 := by
   decide +kernel
 
 /-- **Counterexample (finding `focus-report-lost`, fixed in /repo by 7758baa).**  With a key `ESC [ O a` in the table (rxvt family before
